@@ -38,7 +38,7 @@ META = {
     'trusted_base': ['txsa/spec.py type table', 'txsa.sym interpreter',
                      'CPython ast'],
     'assumptions': ['signatures handed to the splitter are valid (balanced)'],
-    'decided': ['D1 wrapper table', 'D2 inferred signature is one complete '
+    'decided': ['D1 wrapper table', 'D2 also: every basic Python type is inferred as the code of its own D-Bus type', 'D2 inferred signature is one complete '
                 'type; homogeneity flags are only ever lowered inside the '
                 'element loop', 'D3 one splitter', 'D4 no dead decision',
                 'D5 splitter tiling and bracket matching',
